@@ -172,7 +172,31 @@ class C13(Prop):
                     fail_evals.append({"op": "eval", "h": h})
                 for c in [h for h in held if h in b.conlist][:2]:
                     fail_evals.append({"op": "eval_dual", "h": c})
-            rounds.append({"edit": edit, "failing": failing, "fail_evals": fail_evals, "solve": s, "evals": evals})
+            post_fail_edit = []
+            if r == 0 and init is not None and rng.random() < 0.15 and \
+                    not any(o_["op"] == "attach" and o_.get("c") == init for o_ in b.ops):
+                # (a constraint that is also registered with another owner stays in the model when the PEP drops it)
+                # the very first solve of the object is a dimension reduction that dies at its second solver call
+                # (problem 1 was solved: multipliers assigned, no primal solution stored); the user then replaces the
+                # initial condition and solves: the replaced constraint is not part of any completed solve
+                failing = draw_solve(rng, b.P, "fail0", peer_mode=mode)
+                failing["cfg"]["heuristic"] = rng.choice(["trace", "logdet1", "logdet2"])
+                failing["cfg"]["eig"] = 0.05
+                if rng.random() < 0.6:
+                    failing["peer"]["script"] = {"2": {"action": "raise"}}
+                else:
+                    failing["faults"] = {"interrupt": {"at": int(10 ** rng.uniform(0, 1.5)), "fn": "heuristic"}}
+                    failing["crash"] = True
+                failing["nojudge"] = True
+                fail_evals = []
+                o = copy.deepcopy(init_lhs)
+                nedit += 1
+                o["out"] = "ed_c%d" % nedit
+                post_fail_edit = [{"op": "edit", "P": b.P, "what": "remove_constraint", "c": init}, o]
+                evals.append({"op": "eval_dual", "h": init, "_expect_raise": True})
+                init = o["out"]
+            rounds.append({"edit": edit, "failing": failing, "fail_evals": fail_evals, "solve": s, "evals": evals,
+                           "post_fail_edit": post_fail_edit})
         return {"model": model, "rounds": rounds, "mode": mode,
                 "tag": "%s/%s/r%d/%s" % (b.info.get("template"), b.info.get("cls"), nr, mode),
                 "opts": {"oracles": ["fresh", "attr", "cert", "attr_primal", "delivery"]}}
@@ -185,6 +209,7 @@ class C13(Prop):
             if rd.get("failing"):
                 ops.append(rd["failing"])
                 ops += rd.get("fail_evals") or []
+            ops += rd.get("post_fail_edit") or []
             marks.append(len(ops))
             ops.append(rd["solve"])
             ops += rd["evals"]
@@ -195,7 +220,7 @@ class C13(Prop):
         legs = {"main": {"ops": ops, "opts": plan["opts"]}}
         acc = list(plan["model"])
         for r, rd in enumerate(plan["rounds"]):
-            acc = acc + rd["edit"]
+            acc = acc + rd["edit"] + (rd.get("post_fail_edit") or [])
             legs["twin%d" % r] = {"ops": acc + [rd["solve"]], "opts": {}}
         return legs
 
@@ -300,6 +325,11 @@ class C13(Prop):
                                      "detail": {"round": r, "resolve": a, "fresh": b_}})
             elif tw.get("status") == "exc" and x.get("status") == "ok" and x.get("value") is not None:
                 pass
+        # an object that is not part of the model any more (removed before the latest solve) has no multiplier
+        for op_, o_ in zip(ops, outs):
+            if op_.get("_expect_raise") and o_.get("status") == "ok":
+                viol.append({"oracle": "C13/fresh", "signature": "%s-of-an-object-removed-from-the-model-returns-a-number" % op_["op"],
+                             "detail": {"h": op_["h"], "value": str(o_.get("value"))[:60]}})
         seen, out = set(), []
         for v in viol:
             if v["signature"] not in seen:
